@@ -346,11 +346,154 @@ def rnd_n(rng, tier):
     return [rng.randint(1, m) for _ in range(3)]
 
 
+
+# ------------------------------------------------------------------ directed core
+def mkf(r, n, cell, nv, data, dtype="float64", vmap=None, valid=False, vs=1, p1=None, dims=None, vdims=None,
+        bc="", coef=None, uniform=None):
+    """hand-written source field (used by the seed-independent directed core only)"""
+    n = list(n)
+    cell = [F(c) for c in cell]
+    p1 = [F(x) for x in p1] if p1 is not None else [F(k) * c / 2 for k, c in zip((3, -4, 1), cell)]
+    vs = F(vs)
+    if data == "uniform":
+        vals = [F(x) * vs for x in (uniform or (3, -2, 1))[:nv]] * math.prod(n)
+        coef = None
+    elif data == "linear":
+        coef = coef or [[F(r.randint(1, 4)), F(r.randint(0 if dtype.startswith("uint") else -4, 4)), F(r.randint(1, 3)),
+                         F(r.randint(8, 12))] for _ in range(nv)]
+        coef = [[F(x) for x in cf] for cf in coef]
+        vals = []
+        for i, j, k in itertools.product(*(range(m) for m in n)):
+            vals += [(cf[0] * i + cf[1] * j + cf[2] * k + cf[3]) * vs for cf in coef]
+    else:
+        unsigned = dtype.startswith("uint")
+        integral = dtype.startswith(("int", "uint"))
+        vals = [F(r.randint(0 if unsigned else -64, 64), 1 if integral else r.choice([1, 2, 8])) * vs
+                for _ in range(math.prod(n) * nv)]
+        coef = None
+    mask = None
+    if valid:
+        mask = [((7 * i + 3) % 5) not in (0, 3) for i in range(math.prod(n))]
+    return dict(valid=mask, n=n, cell=[g.qs(c) for c in cell], p1=[g.qs(x) for x in p1], nv=nv, data=data,
+                vals=[g.qs(x) for x in vals], vmap=vmap, vdims=vdims, dims=dims, bc=bc, dtype=dtype,
+                dtype_explicit=True, coef=[[g.qs(x * vs) for x in cf] for cf in coef] if coef else None)
+
+
+def directed_core():
+    """Seed-, tier- and run-independent cases: one small group per mechanism that a seeded change of rounds
+    a-e needed (see /verif/seeded/C18-*/meta.json).  Never trimmed."""
+    import random
+    r = random.Random(424242)
+    C = []
+
+    def add(kind, f, ops, style=True, **kw):
+        C.append(dict(kind=kind, field=f, ops=[dict(o) for o in ops], style=style, core=True, **kw))
+
+    def E(seq, ang, deg=False):
+        return dict(op="rot", method="from_euler",
+                    a=dict(seq=seq, angles=[g.qs(float(x)) for x in ang] if isinstance(ang, list) else g.qs(float(ang)),
+                           degrees=deg))
+
+    def RV(v, deg=False):
+        return dict(op="rot", method="from_rotvec", a=dict(rotvec=[g.qs(float(x)) for x in v], degrees=deg))
+
+    def AL(i, f_):
+        return dict(op="rot", method="align_vector", a=dict(initial=[g.qs(float(x)) for x in i],
+                                                            final=[g.qs(float(x)) for x in f_]))
+
+    def N(o, n):
+        return dict(o, n=list(n))
+
+    def BAD(why, base):
+        return dict(op="bad", why=why, base=base)
+
+    CL = dict(op="clear")
+    nm = "1/1000000000"
+    # a1: nanometre-scale (and smaller) cells, non-lattice rotations: cells just outside must be zero
+    for cs in ([nm, nm, nm], ["1/2000000000", "1/1000000000", "3/2000000000"], ["3/10000000000"] * 3):
+        add("rot", mkf(r, (3, 2, 2), cs, 3, "uniform"), [E("z", 30.0, True)])
+        add("rot", mkf(r, (3, 3, 2), cs, 1, "uniform", uniform=(5,)), [RV([0.3, 0.2, 0.5])])
+    # a2: cyclic component-to-axis mappings
+    for vm in ([1, 2, 0], [2, 0, 1]):
+        add("rot", mkf(r, (3, 3, 3), [1, 1, "1/2"], 3, "random", vmap=vm), [E("xyz", [0.3, 0.4, 0.5])])
+        add("quarter", mkf(r, (3, 2, 2), [1, 1, 1], 3, "random", vmap=vm, vdims=["a", "b", "c"]),
+            [E("z", 90.0, True)], ax=2, k=1)
+    # a3: |R| not symmetric on a non-cubic region
+    add("rot", mkf(r, (4, 2, 1), [1, "1/2", 2], 1, "random"), [E("x", 90.0, True), E("z", 90.0, True)])
+    add("rot", mkf(r, (4, 2, 1), [1, "1/2", 2], 3, "random"), [E("zyx", [0.3, 0.5, 0.7])])
+    add("rot", mkf(r, (3, 2, 2), [2, 1, "1/2"], 3, "linear"),
+        [RV([2 * math.pi / 3 / math.sqrt(3)] * 3)])
+    add("rot", mkf(r, (3, 2, 1), [1, 3, "1/2"], 1, "linear"), [E("XZ", [90.0, 90.0], True)], style=False)
+    # b1: storage dtypes, affine scalar data, generic rotation, interior cells
+    for dt in ("int8", "int16", "int32", "int64", "uint8", "uint16", "uint64", "float32"):
+        add("dtype", mkf(r, (4, 3, 3), [1, 1, 1], 1, "linear", dtype=dt), [E("zx", [0.4, 0.3])])
+    add("dtype", mkf(r, (3, 3, 3), [1, 1, 1], 3, "linear", dtype="int16"), [E("zx", [-0.5, 0.7])])
+    # b2: vector alignment by an obtuse angle
+    for i_, f_ in (((0, 0, 2), (1, 0, -1)), ((1, 0, 0), (-1, 1, 0)), ((1, 2, 3), (-3, -1, -1)), ((0, 1, 0), (1, -4, 0))):
+        add("rot", mkf(r, (3, 3, 2), [1, 1, 1], r.choice([1, 3]), "random"), [AL(i_, f_)])
+    # b3: two or more non-commuting rotations on non-uniform data
+    add("rot", mkf(r, (3, 2, 2), [1, 1, 1], 3, "random"), [E("z", 90.0, True), E("x", 90.0, True)])
+    add("rot", mkf(r, (3, 3, 2), [1, "1/2", 1], 1, "random"), [RV([0.2, -0.4, 0.6]), E("y", 0.7)])
+    add("rot", mkf(r, (3, 3, 3), [1, 1, 1], 3, "linear"), [E("x", 0.5), E("z", -0.8), RV([0.1, 0.9, 0.0])])
+    # c1: default n with a cell size that is not representable (edge / cell just below an integer)
+    add("quarter", mkf(r, (20, 10, 5), ["1/10"] * 3, 1, "random", p1=(0, 0, 0)), [E("z", 90.0, True)], ax=2, k=1, nocoq=True)
+    add("quarter", mkf(r, (10, 5, 2), ["1/10"] * 3, 1, "random", p1=(0, 0, 0)), [E("x", 90.0, True)], ax=0, k=1)
+    add("quarter", mkf(r, (10, 20, 3), ["1/10"] * 3, 3, "random", p1=(0, 0, 0)), [E("y", 90.0, True)], ax=1, k=1, nocoq=True)
+    add("quarter", mkf(r, (6, 3, 7), ["3/10"] * 3, 1, "random", p1=(0, 0, 0)), [E("z", -90.0, True)], ax=2, k=-1)
+    # c2: explicit n while the accumulated rotation is the identity
+    add("resample", mkf(r, (3, 2, 2), [1, 1, 1], 1, "linear"), [N(RV([0, 0, 0]), (2, 3, 2))])
+    add("resample", mkf(r, (3, 2, 2), [1, 1, 1], 3, "random"), [E("z", 40.0, True), N(E("z", -40.0, True), (4, 3, 1))])
+    add("resample", mkf(r, (2, 3, 2), [1, 1, 2], 1, "random"), [N(E("x", 360.0, True), (3, 2, 3))])
+    # c3: intrinsic (upper-case) Euler sequences passed as keyword
+    add("rot", mkf(r, (3, 3, 2), [1, 1, 1], 3, "random"), [E("XYZ", [0.3, 0.4, 0.5])], style=False)
+    add("rot", mkf(r, (3, 3, 2), [1, 1, 1], 1, "random"), [E("ZX", [0.5, 0.9])], style=False)
+    add("rot", mkf(r, (3, 2, 3), [1, 1, 1], 3, "linear"), [E("YXZ", [90.0, 45.0, 30.0], True)], style=False)
+    # d1 (+ the other refusal classes): mappings that are not bijections, wrong nvdim / ndim
+    for vm, vd in (([0, 0, 2], False), ([1, 1, 0], True), ([2, 0, 2], True)):
+        C.append(dict(kind="refuse", ndim=3, nvdim=3, mk="noninj", vm=vm, vdims=vd, core=True))
+    C.append(dict(kind="refuse", ndim=3, nvdim=3, mk="perm", vm=[2, 0, 1], vdims=True, core=True))
+    C.append(dict(kind="refuse", ndim=3, nvdim=3, mk="empty", vm=None, vdims=False, core=True))
+    C.append(dict(kind="refuse", ndim=3, nvdim=3, mk="notadim", vm=[0, "q", 2], vdims=False, core=True))
+    C.append(dict(kind="refuse", ndim=3, nvdim=3, mk="nonevalue", vm=[0, 1, None], vdims=True, core=True))
+    C.append(dict(kind="refuse", ndim=3, nvdim=2, mk="default", vm=None, vdims=False, core=True))
+    C.append(dict(kind="refuse", ndim=2, nvdim=3, mk="default", vm=None, vdims=False, core=True))
+    C.append(dict(kind="refuse", ndim=3, nvdim=1, mk="default", vm=None, vdims=False, core=True))
+    # d2: explicit validity mask, invalid cells hold non-zero values; clear / further rotation afterwards
+    add("rot", mkf(r, (3, 3, 2), [1, 1, 1], 1, "linear", valid=True), [E("z", 0.4), CL])
+    add("rot", mkf(r, (3, 3, 2), [1, 1, 1], 1, "linear", valid=True), [E("z", 0.4), E("x", 0.3)])
+    add("rot", mkf(r, (4, 3, 3), [1, 1, 1], 1, "linear", valid=True, dtype="int32"), [E("zx", [0.4, 0.2]), CL, E("y", 0.5)])
+    add("rot", mkf(r, (3, 3, 3), [1, 1, 1], 3, "linear", valid=True), [E("zx", [0.4, 0.3])])
+    # d3: value magnitudes far from one (uniform vector, affine scalar)
+    add("rot", mkf(r, (4, 4, 3), [1, 1, 1], 3, "uniform", vs=F(2) ** -45), [E("zx", [0.4, 0.3])])
+    for k2 in (-30, -100, -200, 300):
+        add("rot", mkf(r, (4, 4, 3), [1, 1, 1], 1, "linear", vs=F(2) ** k2), [E("zx", [0.35, -0.3])])
+    add("rot", mkf(r, (3, 3, 3), [1, 1, 1], 3, "uniform", vs=F(3, 10 ** 13)), [E("z", 0.5)])
+    # e1: calls refused with a TypeError / ValueError stay without effect on what follows
+    q90 = E("z", 90.0, True)
+    add("refusedhist", mkf(r, (3, 2, 2), [1, 1, 1], 3, "random"), [BAD("nfloat", q90), E("z", 0.5)])
+    add("refusedhist", mkf(r, (3, 2, 2), [1, 1, 1], 1, "random"), [E("x", 0.3), BAD("nstr", q90), RV([0.2, 0.1, -0.4])])
+    add("refusedhist", mkf(r, (4, 2, 1), [1, 1, 1], 1, "random"), [BAD("nfloat", q90), q90])
+    add("refusedhist", mkf(r, (4, 2, 1), [1, 1, 1], 3, "random"), [BAD("n0", q90), q90, BAD("nneg", E("x", 90.0, True)), CL, BAD("nshort", q90)])
+    # e2: the default resolution must not depend on the resolution of an earlier (explicit-n) rotation
+    add("rot", mkf(r, (4, 2, 2), [1, 1, 1], 1, "random"), [N(E("z", 45.0, True), (2, 2, 1)), E("z", 45.0, True)])
+    add("rot", mkf(r, (3, 2, 2), [1, 1, 1], 3, "random"), [N(E("x", 30.0, True), (6, 6, 6)), E("y", 0.4)])
+    add("rot", mkf(r, (4, 3, 2), [1, 1, "1/2"], 1, "linear"), [N(RV([0.3, 0.2, 0.1]), (1, 1, 1)), E("z", 0.6)])
+    # e3: the same explicit n for different accumulated rotations of one rotator
+    add("rot", mkf(r, (3, 2, 2), [1, 1, 1], 3, "random"), [N(E("z", 30.0, True), (3, 3, 2)), N(E("x", 50.0, True), (3, 3, 2))])
+    add("rot", mkf(r, (3, 3, 2), [1, 1, 1], 1, "linear"), [N(E("z", 0.5), (2, 3, 2)), CL, N(RV([0.4, 0.4, 0.0]), (2, 3, 2))])
+    add("rot", mkf(r, (2, 2, 3), [1, 2, 1], 1, "random"), [N(E("y", 0.7), (3, 3, 3)), N(E("y", 0.7), (3, 3, 3)), N(E("x", -0.2), (3, 3, 3))])
+    return C
+
+
 def generate(rng, tier):
+    return directed_core() + generate_random(rng, tier)
+
+
+def generate_random(rng, tier):
     cases = []
     quick = tier == "quick"
     # (a) random sequences of rotations, all input methods
-    for _ in range(80 if quick else 800):
+    for _ in range(40 if quick else 600):
         f = gen_field(rng, tier)
         ops = gen_ops(rng, tier)
         for o in ops:
@@ -384,7 +527,7 @@ def generate(rng, tier):
             op = dict(op="rot", method="from_euler", a=dict(seq="xyz"[ax], angles=g.qs(90.0 * k), degrees=True))
         cases.append(dict(kind="quarter", field=f, ops=[op], style=True, ax=ax, k=k))
     # (e) threshold-directed: identity / tiny rotations with explicit fine n (edge padding, zero fill band)
-    for _ in range(20 if quick else 200):
+    for _ in range(12 if quick else 200):
         f = gen_field(rng, tier, nmax=3)
         r = rng.random()
         if r < 0.4:
@@ -400,7 +543,7 @@ def generate(rng, tier):
             op["n"][rng.randrange(3)] -= 1
         cases.append(dict(kind="resample", field=f, ops=[op], style=rng.random() < 0.5))
     # (h) larger meshes: oracle only (interior / outside / composition clauses), no Coq record
-    for _ in range(100 if quick else 600):
+    for _ in range(60 if quick else 500):
         f = gen_field(rng, tier, nmax=8, big=400)
         cases.append(dict(kind="rot", field=f, ops=gen_ops(rng, tier), style=rng.random() < 0.5, nocoq=True))
     # (i) every storage dtype x {scalar, vector}: affine integer data (interpolated values are non-integral),
@@ -422,7 +565,7 @@ def generate(rng, tier):
         f["imag"] = [g.qs(F(rng.randint(-20, 20), 4)) for _ in f["vals"]]
         cases.append(dict(kind="complex", field=f, ops=[gen_rot(rng, "from_rotvec")], style=True))
     # (k) histories that interleave REFUSED rotate() calls with accepted ones and clear_rotation
-    for _ in range(30 if quick else 250):
+    for _ in range(20 if quick else 250):
         f = gen_field(rng, tier)
         ops = gen_ops(rng, tier, maxlen=3)
         if rng.random() < 0.3:
@@ -435,7 +578,7 @@ def generate(rng, tier):
                 o["n"] = rnd_n(rng, tier)
         cases.append(dict(kind="refusedhist", field=f, ops=ops, style=rng.random() < 0.5))
     # (f) refusals
-    for _ in range(60 if quick else 300):
+    for _ in range(40 if quick else 300):
         ndim = rng.choice([1, 2, 3, 3, 3, 3, 4])
         nvdim = rng.choice([1, 2, 3, 3, 3, 4])
         mk = "default"
@@ -636,6 +779,17 @@ def run_rot(c):
         if bad_lin:
             rec["oracle"].append("linear-field-not-reproduced")
         rec["interior"], rec["outside"] = interior, outside
+        # default resolution: the same as a fresh rotator given the accumulated rotation at once (it must not
+        # depend on the resolutions of earlier rotations); compared away from rounding ties only
+        if last_n is None:
+            Lr = np.abs(Racc) @ cell
+            xq = (opmax - opmin) / (Lr * (np.prod(cell) / np.prod(Lr)) ** (1 / 3))
+            if np.all(np.abs(xq - np.floor(xq) - 0.5) > 1e-6):
+                st_n, n_fresh = attempt(lambda: (lambda fr_: (fr_.rotate("from_matrix", Racc),
+                                                              [int(x) for x in fr_.field.mesh.n])[1])(
+                    df.FieldRotator(build(fc))))
+                if st_n == "ok" and n_fresh != on:
+                    rec["oracle"].append("default-n-depends-on-history")
         # composition: one fresh rotator, one rotation by the accumulated matrix
         st, g2 = attempt(lambda: (lambda fr_: (fr_.rotate("from_matrix", Racc, n=tuple(on)), fr_.field)[1])(
             df.FieldRotator(build(fc))))
@@ -680,7 +834,7 @@ def run_rot(c):
         else:
             ne = o.get("n")
             ops_coq.append(f"ORot {qm(M)} " + ("None" if ne is None else f"(Some {qn3(ne)})"))
-    if not c.get("nocoq") and math.prod(on) * nv <= COQ_MAX_VALUES:
+    if not c.get("nocoq") and math.prod(on) * nv <= (200 if c.get("core") else COQ_MAX_VALUES):
         rec["coq"] = (f"CRot {qv(pmin)} {qv(pmax)} {qn3(n)} {g.nat(nv)} {g.nl(perm)} {g.ql(A.reshape(-1))} "
                       f"{g.lst(ops_coq)} {qn3(on)} {qv(opmin)} {qv(opmax)} {g.ql(oarr.reshape(-1))}")
     methods = tuple(o.get("method", "bad:" + o["why"] if o["op"] == "bad" else "clear") for o in c["ops"])
@@ -823,6 +977,7 @@ def stats(records):
             out.setdefault("complex", []).append(r.get("obs"))
             continue
         out["rot_cases"] += 1
+        out["core_cases"] = out.get("core_cases", 0) + int(bool(c.get("core")))
         out["masked_fields"] = out.get("masked_fields", 0) + int(c["field"].get("valid") is not None)
         mag = max((abs(F(x)) for x in c["field"]["vals"]), default=F(0))
         out["tiny_or_huge_values"] = out.get("tiny_or_huge_values", 0) + int(mag != 0 and (mag < F(1, 2 ** 40) or mag > 2 ** 60))
